@@ -1,27 +1,70 @@
+import json
 from lib.pipeline import Prop
+from lib import pipeline as P
 EX = "{REPO}"
+SEQ_FIELDS = "recBuf.seq,recBuf.batch0Seq,seqRecBatch.seq"
+ALLOWED_FORMS = ("inc", "copy", "zero-at-reset")
+
+
+def seq_site_obligations():
+    """Tie T for the client's USES of sequence arithmetic: every write to recBuf.seq / recBuf.batch0Seq /
+    seqRecBatch.seq in pkg/kgo is enumerated from the AST on every run (tools/extract seqsites-json); each site is
+    one obligation: its right-hand side is incrementSequence(field, n), a copy of a sequence field, or the literal
+    0 under needSeqReset. The obligation names carry the enumeration into the evidence."""
+    ex = P.build_extract()
+    rc, out, err = P.sh([ex, "seqsites-json", P.REPO + "/pkg/kgo", "Gen.C29S", "Gen.C29.incrementSequence", SEQ_FIELDS], timeout=120)
+    if rc != 0:
+        return [("sequence-sites: enumerate writes to %s in pkg/kgo" % SEQ_FIELDS, False, err.strip()[-1500:])]
+    res = []
+    for s in json.loads(out):
+        ok = s["form"] in ALLOWED_FORMS
+        name = "sequence-site %s %s: `%s` [%s]" % (s["loc"], s["fn"], s["src"], s["form"])
+        detail = "" if ok else ("%s: the write `%s` to %s in %s is not incrementSequence(field, n), a copy of a sequence field or the reset to 0 "
+                                "(form: %s; value written: %s) — sequence arithmetic outside incrementSequence does not wrap at 2^31"
+                                % (s["loc"], s["src"], s["target"], s["fn"], s["form"], s["lean"]))
+        res.append((name, ok, detail))
+    return res
+
+
 PROP = Prop(
     "C29",
     gen=[("FranzVerif/Gen/C29.lean",
           ["cat", "intfunc", EX + "/pkg/kgo/sink.go", "incrementSequence", "Gen.C29", "--",
-           "remconsts", EX + "/pkg/kfake/txns.go", "pidwindow.pushAndValidate", "Gen.C29K", "kfakeSeqMod", "next"])],
-    models=[("pkg/kfake/txns.go", ["pidwindow.pushAndValidate"]), ("pkg/kgo/sink.go", ["incrementSequence"])],
+           "remconsts", EX + "/pkg/kfake/txns.go", "pidwindow.pushAndValidate", "Gen.C29K", "kfakeSeqMod", "next", "--",
+           "seqsites", EX + "/pkg/kgo", "Gen.C29S", "Gen.C29.incrementSequence", SEQ_FIELDS])],
+    models=[("pkg/kfake/txns.go", ["pidwindow.pushAndValidate"]),
+            ("pkg/kgo/sink.go", ["incrementSequence", "Client.finishBatch", "recBuf.resetBatchDrainIdx", "seqRecBatches.addBatch"])],
+    extra_obligations=seq_site_obligations,
     group_by_reset=True,
     rule="inc: boundary grid and random (s,n); non-trivial = s+n within 8 of 2^31 or beyond. "
          "push: histories of raw produce requests to the real kfake (fresh producer id per history, window seeded near the wrap), "
          "mix of correct next / retries of the last 1..7 batches / off-by-one sequences / epoch bumps; "
-         "non-trivial = answer other than accept, or batch ending within 64 of 2^31. distinct = distinct op lines.",
-    trusted_base=["tools/extract (Go AST -> Lean translator for incrementSequence and the modulus constant of pushAndValidate)",
+         "non-trivial = answer other than accept, or batch ending within 64 of 2^31. "
+         "scen: the real kgo producer against the real kfake, the partition's sequence set to 2^31-k by the verif hook, batches crossing the wrap, "
+         "then forced rewinds (leader moves, retriable error answers, connection cut before / after the broker handled a produce request, "
+         "up to 5 requests in flight); non-trivial = the history crosses 2^31 and contains a re-sent batch. distinct = distinct op lines.",
+    trusted_base=["tools/extract (Go AST -> Lean translator for incrementSequence, the modulus constant of pushAndValidate, and the values written "
+                  "at every write to recBuf.seq / recBuf.batch0Seq / seqRecBatch.seq in pkg/kgo)",
                   "hand-written model of pidwindow.pushAndValidate and of the epoch glue in 00_produce.go, tied by differential runs through raw produce requests",
+                  "hand-written control flow of the client model (which recBuf operation happens when; the writes themselves are regenerated), "
+                  "tied by the chain monitor over histories of the real client near the wrap",
+                  "verif hook kgo.VerifC29SetPartitionSequence (sets recBuf.seq/batch0Seq before the first produce; 2^31 records cannot be produced in a test)",
                   "Lean compiler/runtime for the driver"],
     assumptions=["sequence numbers and batch sizes are non-negative int32 values (what the wire carries)",
-                 "producer epoch -1 (non-idempotent) is outside the property"],
+                 "producer epoch -1 (non-idempotent) is outside the property",
+                 "a partition never has 2^31 or more records buffered at once (client model)"],
 )
 MANIFEST = {
-    "text": "Lean theorems for all s,n: the regenerated client incrementSequence equals (s+n) mod 2^31; kfake's window model (with the modulus "
-            "regenerated from the source) refines the abstract 'last five accepted batches' spec on every push history (accept next, dup with original "
-            "offset, reject otherwise). The kfake model is tied to the code by differential runs through raw produce requests against the real kfake.",
+    "text": "Lean theorems for all s,n: the regenerated client incrementSequence equals (s+n) mod 2^31; every write to a sequence field in pkg/kgo "
+            "(enumerated from the AST on every run) is incrementSequence(field, n), a copy or the reset to 0, and for every schedule of client "
+            "operations (drain, ack, rewind, producer-id failure) started at any sequence — in particular across the wrap — what the client model "
+            "with those regenerated writes sends is one chain first' = (first+n) mod 2^31, never negative, re-sent batches carrying their original "
+            "first sequence; kfake's window model (with the modulus regenerated from the source) refines the abstract 'last five accepted batches' "
+            "spec on every push history (accept next, dup with original offset, reject otherwise). The kfake model is tied to the code by "
+            "differential runs through raw produce requests; the client model by histories of the real client against the real kfake with the "
+            "partition's sequence set just below 2^31 and forced rewinds, judged by the same chain monitor.",
     "note": "Trusted: Lean kernel; tools/extract translator; the hand-written model of pushAndValidate and the produce-handler epoch glue (validated differentially, "
-            "not verified); non-negative int32 sequences; epoch -1 excluded.",
-    "technique": "Lean 4 proof (regenerated definitions + refinement by induction over histories) with differential correspondence against kfake",
+            "not verified); the control flow of the client model (validated on histories, not verified; the interleaving of producer-id failure "
+            "with in-flight requests is modelled atomically); the verif hook that sets a partition's sequence; non-negative int32 sequences; epoch -1 excluded.",
+    "technique": "Lean 4 proof (regenerated definitions + refinement / invariant by induction over histories) with differential and history correspondence against kfake and the real client",
 }
